@@ -266,6 +266,7 @@ impl Family for XBundle {
             0..=10 => {
                 let wo = r.chance(1, 8);
                 let i = pick_index(r, wo);
+                let auth = if auth == 0 && r.chance(1, 12) { 5 } else { auth };
                 let (lo, hi) = if ts >= 32768 {
                     if r.chance(3, 4) {
                         (-427648i64, 427648i64)
@@ -345,8 +346,9 @@ impl XBundle {
                 let (lo, hi): (i64, i64) = (t[3].parse().unwrap(), t[4].parse().unwrap());
                 let auth: u8 = t[5].parse().unwrap();
                 let (signer_key, signs) = w.signer(auth);
+                // auth mode 5 (C15): the account offered is the bundled-position address of ANOTHER index
                 let acc = ::whirlpool::accounts::OpenBundledPosition {
-                    bundled_position: position_pda(&w.mint, i),
+                    bundled_position: position_pda(&w.mint, if auth == 5 { (i % 256 + 1) % 256 } else { i }),
                     position_bundle: w.bundle,
                     position_bundle_token_account: w.token_slot(auth),
                     position_bundle_authority: signer_key,
@@ -376,6 +378,9 @@ impl XBundle {
                         }
                         if auth == 4 {
                             ctx.viol("C15/C04 open_bundled_position accepted the token of ANOTHER bundle as this bundle's token".to_string());
+                        }
+                        if auth == 5 {
+                            ctx.viol("C15/C18 open_bundled_position created the position at the address of another bundle index".to_string());
                         }
                         let bm1 = w.bitmap().unwrap();
                         let mut want = bm0;
